@@ -51,9 +51,7 @@ def out0 (led : Ledger) : Out := { writes := [], events := [], deps := [], ledge
 def sendCore (st : Store) (dest : Nat) (recipient caller sender : Bytes) (nonce : Nat) (body : Bytes) :
     R Event := do
   req (¬ sendPaused st)
-  match getSize st with
-  | some mx => req (¬ body.length > mx)
-  | none => pure ()
+  reqAll (getSize st) (fun mx => ¬ body.length > mx)
   req (¬ (recipient.length = 0 ∨ isZeros recipient))
   let bz ← Message.bytes { version := MessageBodyVersion, sourceDomain := NobleDomainId, destDomain := dest,
                            nonce := nonce, sender := sender, recipient := recipient, caller := caller,
@@ -80,6 +78,13 @@ def sendMessageWithCaller (ext : Ext) (st : Store) (led : Ledger) (from_ : Bytes
   let ev ← sendCore st dest recipient caller (pad12 addr) n body
   pure { out0 led with writes := [w], events := [ev], resp := .nonce n }
 
+/-- depositForBurn's hand-off: SendMessage when no destination caller was given, else
+    SendMessageWithCaller — both in the module's own name. -/
+def innerSend (ext : Ext) (cfg : Cfg) (st : Store) (led : Ledger) (dest : Nat) (recipient body caller : Bytes) :
+    R Out :=
+  if caller.length = 0 then sendMessage ext st led cfg.moduleStr dest recipient body
+  else sendMessageWithCaller ext st led cfg.moduleStr dest recipient body caller
+
 def depositForBurn (ext : Ext) (cfg : Cfg) (st : Store) (led : Ledger) (from_ : Bytes)
     (amount : Option Int) (dest : Nat) (mintRecipient burnToken caller : Bytes) : R Out := do
   let addr ← getOr (ext.accAddr from_)
@@ -89,23 +94,20 @@ def depositForBurn (ext : Ext) (cfg : Cfg) (st : Store) (led : Ledger) (from_ : 
   let (_, msgrAddr) ← getOr (getMessenger st dest)
   req (ext.equalFold led.mintingDenom burnToken)
   req (¬ burnPaused st)
-  match getLimit st (ext.toLower burnToken) with
-  | some l => req (¬ a > l)
-  | none => pure ()
+  reqAll (getLimit st (ext.toLower burnToken)) (fun l => ¬ a > l)
   req (ext.validDenom burnToken)
-  let (ok1, led1) := led.transfer addr cfg.moduleAddr burnToken a
-  let d1 := Dep.transfer addr ModuleName burnToken a ok1
-  req ok1
-  let (ok2, led2) := led1.burn true cfg.moduleAddr burnToken a
-  let d2 := Dep.burn cfg.moduleStr burnToken a ok2
-  req ok2
+  let r1 := led.transfer addr cfg.moduleAddr burnToken a
+  req (r1.1 = true)
+  let r2 := r1.2.burn true cfg.moduleAddr burnToken a
+  req (r2.1 = true)
+  let d1 := Dep.transfer addr ModuleName burnToken a true
+  let d2 := Dep.burn cfg.moduleStr burnToken a true
+  let led2 := r2.2
   let token := ext.keccak256 (ext.toLower burnToken)
   let body ← BurnMessage.bytes { version := MessageBodyVersion, burnToken := token,
                                  mintRecipient := mintRecipient, amount := some a,
                                  messageSender := pad12 addr }
-  let inner ← if caller.length = 0
-    then sendMessage ext st led2 cfg.moduleStr dest msgrAddr body
-    else sendMessageWithCaller ext st led2 cfg.moduleStr dest msgrAddr body caller
+  let inner ← innerSend ext cfg st led2 dest msgrAddr body caller
   let n := match inner.resp with | .nonce n => n | _ => 0
   let ev := Event.depositForBurn n (toHex token) a from_ mintRecipient dest msgrAddr caller
   pure { inner with events := inner.events ++ [ev], deps := [d1, d2], resp := .nonce n }
@@ -137,10 +139,45 @@ def replaceDepositForBurn (ext : Ext) (cfg : Cfg) (st : Store) (led : Ledger) (f
   req (¬ newMintRecipient = zeros MintRecipientLen)
   let nb ← BurnMessage.bytes { b with mintRecipient := newMintRecipient }
   let inner ← replaceMessage ext st led cfg.moduleStr original attestation nb newCaller
-  let amt := match b.amount with | some a => a | none => 0
+  let amt := b.amount.getD 0
   let ev := Event.depositForBurn m.nonce (toHex b.burnToken) amt from_ newMintRecipient m.destDomain
     m.recipient newCaller
   pure { inner with events := inner.events ++ [ev] }
+
+/-- the destination-caller check of ReceiveMessage: all-zero, or the bech32 form of its low 20 bytes
+    is the submitter's address string. -/
+def checkCaller (ext : Ext) (caller from_ : Bytes) : R Unit :=
+  if caller = zeros 32 then pure ()
+  else do
+    let s ← getOr (ext.bech32Enc (caller.drop 12))
+    req (s = from_)
+
+/-- what the mint branch of ReceiveMessage yields: events, dependency calls, ledger. -/
+structure MintOut where
+  events : List Event
+  deps : List Dep
+  ledger : Ledger
+
+/-- the branch of ReceiveMessage taken for messages addressed to the CCTP module. -/
+def mintBranch (ext : Ext) (cfg : Cfg) (st : Store) (led : Ledger) (m : Message) : R MintOut := do
+  req (¬ burnPaused st)
+  let b ← BurnMessage.parse m.body
+  req (b.version = MessageBodyVersion)
+  let (_, _, localToken) ← getOr (getPair ext st m.sourceDomain b.burnToken)
+  let (_, msgrAddr) ← getOr (getMessenger st m.sourceDomain)
+  req (m.sender = msgrAddr)
+  let rcp ← getOr (ext.bech32Enc (b.mintRecipient.drop 12))
+  let denom := ext.toLower localToken
+  let amt := b.amount.getD 0
+  let r := led.mint true (ext.accAddr rcp) denom amt
+  req (r.1 = true)
+  pure { events := [Event.mintAndWithdraw b.mintRecipient amt denom],
+         deps := [Dep.mint cfg.moduleStr rcp denom amt true], ledger := r.2 }
+
+/-- only messages addressed to the CCTP module mint. -/
+def mintOrSkip (ext : Ext) (cfg : Cfg) (st : Store) (led : Ledger) (m : Message) : R MintOut :=
+  if m.recipient = cfg.modulePadded then mintBranch ext cfg st led m
+  else pure { events := [], deps := [], ledger := led }
 
 def receiveMessage (ext : Ext) (cfg : Cfg) (st : Store) (led : Ledger) (from_ message attestation : Bytes) :
     R Out := do
@@ -151,30 +188,13 @@ def receiveMessage (ext : Ext) (cfg : Cfg) (st : Store) (led : Ledger) (from_ me
   verify ext message attestation attesters t
   let m ← Message.parse message
   req (m.destDomain = NobleDomainId)
-  if ¬ m.caller = zeros 32 then do
-    let s ← getOr (ext.bech32Enc (m.caller.drop 12))
-    req (s = from_)
+  checkCaller ext m.caller from_
   req (m.version = NobleMessageVersion)
   req (¬ isUsed st m.sourceDomain m.nonce)
   let w : Store.Write := (Key.usedNonce m.sourceDomain m.nonce, some (.nonce m.sourceDomain m.nonce))
   let recvEv := Event.messageReceived from_ m.sourceDomain m.nonce m.sender m.body
-  if m.recipient = cfg.modulePadded then do
-    req (¬ burnPaused st)
-    let b ← BurnMessage.parse m.body
-    req (b.version = MessageBodyVersion)
-    let (_, _, localToken) ← getOr (getPair ext st m.sourceDomain b.burnToken)
-    let (_, msgrAddr) ← getOr (getMessenger st m.sourceDomain)
-    req (m.sender = msgrAddr)
-    let rcp ← getOr (ext.bech32Enc (b.mintRecipient.drop 12))
-    let denom := ext.toLower localToken
-    let amt := match b.amount with | some a => a | none => 0
-    let (ok, led1) := led.mint true (ext.accAddr rcp) denom amt
-    let d := Dep.mint cfg.moduleStr rcp denom amt ok
-    req ok
-    pure { writes := [w], events := [Event.mintAndWithdraw b.mintRecipient amt denom, recvEv],
-           deps := [d], ledger := led1, resp := .success }
-  else
-    pure { out0 led with writes := [w], events := [recvEv], resp := .success }
+  let mo ← mintOrSkip ext cfg st led m
+  pure { writes := [w], events := mo.events ++ [recvEv], deps := mo.deps, ledger := mo.ledger, resp := .success }
 
 /-! ### administrative handlers -/
 
@@ -246,7 +266,7 @@ def updateSignatureThreshold (st : Store) (led : Ledger) (from_ : Bytes) (amount
   let mgr ← getMust (getRole st Key.attesterManager)
   req (mgr = from_)
   req (¬ amount = 0)
-  let cur := match getThreshold st with | some t => t | none => 0
+  let cur := (getThreshold st).getD 0
   req (¬ amount = cur)
   req (¬ amount > u32 (attestersOf st).length)
   pure (adminOut led [(Key.threshold, some (.threshold amount))]
@@ -282,7 +302,7 @@ def setMaxBurnAmountPerMessage (ext : Ext) (st : Store) (led : Ledger) (from_ lo
   let tc ← getMust (getRole st Key.tokenController)
   req (tc = from_)
   let denom := ext.toLower localToken
-  let a := match amount with | some a => a | none => 0   -- a nil Int marshals as "0"
+  let a := amount.getD 0   -- a nil Int marshals as "0"
   pure (adminOut led [(Key.limit denom, some (.limit denom a))]
     ⟨.setBurnLimitPerMessage, [.bytes denom, .int a]⟩)
 
